@@ -527,6 +527,9 @@ var apisCached = []api{
 
 var lineRE = regexp.MustCompile(`^line (\d+): `)
 
+// unknownName: the name in an unknown-identifier message
+var unknownName = regexp.MustCompile(`"([A-Za-z_][A-Za-z0-9_]*)": unknown identifier`)
+
 // innerLine: a line number a message mentions in its own text, not at the start of a line of the error text
 var innerLine = regexp.MustCompile(`([^\n])line \d+`)
 
@@ -576,6 +579,16 @@ func check(r *vk.Run, c Case) *vk.Fail {
 			cl = c.Classes[0]
 		}
 		return &vk.Fail{Kind: "line", Class: cl, Case: c, Msg: fmt.Sprintf("template %q (failing tag %q on line %d..%d): ", src, string(c.Lead)+string(c.Tag), first, last) + fmt.Sprintf(f, a...)}
+	}
+	if invalidCtx[c.Ctx] || invalidKind[c.Kind] {
+		r.Exclude("table entry does not hold on this tree: " + map[bool]string{true: "context " + c.Ctx, false: "kind " + c.Kind}[invalidCtx[c.Ctx]])
+		return nil
+	}
+	for _, t := range invalidPrefix {
+		if strings.HasPrefix(string(c.Pre), t) {
+			r.Exclude("table entry does not hold on this tree: a prefix")
+			return nil
+		}
 	}
 	nt := ""
 	if first > 1 {
@@ -637,6 +650,13 @@ func check(r *vk.Run, c Case) *vk.Fail {
 			return fail("%s error %q: its first line %q does not start with \"line N: \"", api.name, text, bad)
 		}
 		// (2) N names the failing tag
+		if m := unknownName.FindStringSubmatch(msgs[0].rest); m != nil && !c.ToEOF && !strings.Contains(string(c.Lead)+string(c.Tag), m[1]) && strings.Contains(string(c.Pre)+string(c.Post), m[1]) {
+			// the render stopped at an unknown identifier that stands elsewhere in the template, where the case counted on
+			// it being forgiven (inside a called function's body, C07 / C05: not demanded): the designated tag is not
+			// the failing one on this tree
+			r.Exclude("an unknown identifier elsewhere in the template was not forgiven")
+			return nil
+		}
 		if n := msgs[0].n; first == last && n != first {
 			return fail("%s error %q names line %d, the failing tag lies on line %d", api.name, text, n, first)
 		} else if n < first || n > last {
@@ -767,29 +787,62 @@ func runCellWith(r *vk.Run, cl cell, shifts []int, shiftText string, cached, shi
 
 // validate renders every table entry with a harmless tag in place of the failing one: the tables themselves
 // must be valid templates, otherwise the check would blame plush for the harness' own mistakes.
+// Table entries that do not hold on the tree under test are dropped, not fatal: a context whose own tags no longer
+// render (it relied on something no statement promises, e.g. forgiving an unknown identifier raised inside a called
+// function), a prefix that no longer renders, a kind whose tag no longer fails (an operator that became legal). A tree on
+// which a large part of the tables is invalid is another matter: then the check says so and gives up (exit 2).
+var (
+	invalidCtx    = map[string]bool{}
+	invalidKind   = map[string]bool{}
+	invalidPrefix []string
+)
+
 func validate() error {
-	try := func(what, src string) error {
+	renders := func(src string) bool {
 		res := vk.Safe(func() (string, error) { return plush.Render(src, plush.NewContextWith(data())) })
-		if res.Panicked() || res.Err != nil {
-			return fmt.Errorf("%s: %q does not render: %s", what, src, res)
+		return !res.Panicked() && res.Err == nil
+	}
+	for _, x := range ctxs {
+		if !renders(x.pre + x.ok() + x.post) {
+			invalidCtx[x.name] = true
 		}
-		return nil
 	}
 	for _, p := range prefixes {
+		if p.text != "" && !renders(p.text+"<%= 1 %>") {
+			invalidPrefix = append(invalidPrefix, p.text)
+		}
+	}
+	for _, p := range prefixes {
+		bad := false
+		for _, t := range invalidPrefix {
+			bad = bad || t == p.text
+		}
+		if bad {
+			continue
+		}
 		for _, x := range ctxs {
+			if invalidCtx[x.name] {
+				continue
+			}
 			for _, s := range suffixes {
-				if err := try("prefix "+p.name+" / context "+x.name, p.text+x.pre+x.ok()+x.post+s); err != nil {
-					return err
+				if src := p.text + x.pre + x.ok() + x.post + s; !renders(src) {
+					return fmt.Errorf("prefix %s / context %s: %q does not render although each part does", p.name, x.name, src)
 				}
 			}
 		}
 	}
 	for _, k := range kinds {
-		if k.setup != "" {
-			if err := try("setup of "+k.name, k.setup); err != nil {
-				return err
-			}
+		if k.setup != "" && !renders(k.setup) {
+			invalidKind[k.name] = true
+			continue
 		}
+		// the premise of a kind: its tag fails where nothing else can
+		if !k.loopOnly && renders(k.setup+k.lead+k.tag+k.tail) {
+			invalidKind[k.name] = true
+		}
+	}
+	if len(invalidCtx)*4 > len(ctxs) || len(invalidKind)*4 > len(kinds) || len(invalidPrefix)*4 > len(prefixes) {
+		return fmt.Errorf("%d of %d contexts, %d of %d kinds and %d of %d prefixes do not hold on this tree", len(invalidCtx), len(ctxs), len(invalidKind), len(kinds), len(invalidPrefix), len(prefixes))
 	}
 	return nil
 }
